@@ -46,6 +46,9 @@ class Recv:
     def __eq__(self, other):
         return isinstance(other, Recv)
 
+    def __bool__(self):
+        return False      # a receiver may be falsy (a collection-like object that is empty): it is still a receiver
+
     def __hash__(self):
         return 7
 
